@@ -132,6 +132,19 @@ func (t *Trace) Line(format string, a ...any) {
 }
 func (t *Trace) Close() { t.w.Flush(); t.f.Close() }
 
+// ShapeOnly records an event in the shape digest without writing it to the trace.
+func (t *Trace) ShapeOnly(line string) {
+	t.mu.Lock()
+	defer t.mu.Unlock()
+	f := strings.Fields(line)
+	if len(f) >= 3 {
+		t.shape = append(t.shape, f[2]+":"+f[len(f)-1][:min(len(f[len(f)-1]), 8)])
+		if f[2] == "lockreplace" {
+			lastShapeKinds = "lockreplace"
+		}
+	}
+}
+
 // OracleFailure is one property violation observed directly on the
 // implementation by an engine's runtime oracle (independent of the model).
 type OracleFailure struct {
